@@ -270,14 +270,11 @@ package drpcstream
 //@   ghost after:(*Signal).IsSet#1 wasTerm = ret
 //@   ghost entry putData = nil
 //@   ghost call:(*packetBuffer).Put putData = arg1
-//@   site (*Signal).Set#1 assert [C03.remote-error-send-eof]  arg1 == io.EOF && pkt.Kind == drpcwire.KindError
-//@   site (*Signal).Set#2 assert [C03.remote-cancel-signal]   arg1 == context.Canceled && pkt.Kind == drpcwire.KindCancel
-//@   site (*Signal).Set#3 assert [C03.remote-cancel-send-eof] arg1 == io.EOF && pkt.Kind == drpcwire.KindCancel
-//@   site (*Signal).Set#4 assert [C03.remote-close-recv-eof]  arg1 == io.EOF && pkt.Kind == drpcwire.KindClose
-//@   site (*Signal).Set#5 assert [C03.remote-closesend-recv-eof] arg1 == io.EOF && pkt.Kind == drpcwire.KindCloseSend
+//@   site (*Signal).Set assert [C03.remote-signal-values] (pkt.Kind == drpcwire.KindError ==> arg0 == s.sigs.send && arg1 == io.EOF) && (pkt.Kind == drpcwire.KindCancel ==> (arg0 == s.sigs.cancel && arg1 == context.Canceled) || (arg0 == s.sigs.send && arg1 == io.EOF)) && (pkt.Kind == drpcwire.KindClose || pkt.Kind == drpcwire.KindCloseSend ==> arg0 == s.sigs.recv && arg1 == io.EOF)
+//@   check [C03.remote-signal-count] pkt.ID.Stream == old(s.id.Stream) && !wasTerm ==> eventCount("call:(*Signal).Set") == ite(pkt.Kind == drpcwire.KindCancel, 2, ite(pkt.Kind == drpcwire.KindError || pkt.Kind == drpcwire.KindClose || pkt.Kind == drpcwire.KindCloseSend, 1, 0))
 //@   site (*Stream).terminateIfBothClosed assert [C03.remote-closesend-may-terminate] held(s.mu.Mutex) && pkt.Kind == drpcwire.KindCloseSend
-//@   site (*packetBuffer).Close#1 assert [C03.remote-close-wakes-receivers] arg1 == io.EOF && pkt.Kind == drpcwire.KindClose
-//@   site (*packetBuffer).Close#2 assert [C03.remote-closesend-wakes-receivers] arg1 == io.EOF && pkt.Kind == drpcwire.KindCloseSend
+//@   site (*packetBuffer).Close assert [C03.remote-close-wakes-receivers] arg1 == io.EOF && (pkt.Kind == drpcwire.KindClose || pkt.Kind == drpcwire.KindCloseSend)
+//@   check [C03.remote-close-wakes-once] pkt.ID.Stream == old(s.id.Stream) && !wasTerm && (pkt.Kind == drpcwire.KindClose || pkt.Kind == drpcwire.KindCloseSend) ==> eventCount("call:(*packetBuffer).Close") == 1
 //@   check [C02.foreign-noop]  pkt.ID.Stream != old(s.id.Stream) ==> err == nil && eventCount("call:(*Signal)") == 0 && eventCount("call:(*packetBuffer)") == 0 && eventCount("lock:") == 0
 //@   check [C03.term-noop]     pkt.ID.Stream == old(s.id.Stream) && wasTerm ==> err == nil && eventCount("call:(*Signal).Set") == 0 && eventCount("call:(*packetBuffer)") == 0 && eventCount("lock:") == 0
 //@   check [C01.message]       pkt.ID.Stream == old(s.id.Stream) && !wasTerm && pkt.Kind == drpcwire.KindMessage ==> err == nil && putData == pkt.Data && eventCount("call:(*packetBuffer).Put") == 1 && eventCount("call:(*Signal).Set") == 0
